@@ -246,7 +246,11 @@ def fl(x):
     return str(f2b(x))
 
 
-def draw_eps(r):
+def draw_eps(r, extreme=0.1):
+    """epsilon in (0, 50] log-uniform, plus (probability `extreme`) the huge-but-finite region where degenerate
+    branches live: (50, 700] (e^eps still a double) and [1e3, 1e9] (e^eps overflows; sensitivity/epsilon tiny)"""
+    if extreme and r.chance(extreme):
+        return r.loguniform(50.0, 700.0) if r.chance(0.4) else r.loguniform(1e3, 1e9)
     m = r.u01()
     if m < 0.15:
         return r.choice([0.1, 0.25, 0.5, 1.0, 2.0, 3.0, 5.0, 10.0])
@@ -397,7 +401,7 @@ def geom_monotone_ok(sc, x, r, nprobe=24):
 def gen_geom_case(r, tier):
     variant = r.choice(["p", "p", "t", "t", "f", "f"])
     eps = draw_eps(r)
-    sens = r.choice([0, 1, 1, 1, 1, 2, 2, 3, 5, 10, 100])
+    sens = r.choice([0, 1, 1, 1, 1, 2, 2, 3, 5, 10, 100, 10 ** 6, 10 ** 9, 10 ** 12])
     lo = hi = None
     x = r.choice([0, 0, 1, -1, 5, r.randint(-50, 50), r.randint(-10 ** 6, 10 ** 6)])
     if variant != "p":
@@ -735,7 +739,30 @@ def gen_exp_case(r, paf=False, nmax=8):
     m = r.u01()
     sens = 0.0 if m < 0.08 else (1.0 if m < 0.4 else (float(r.randint(1, 5)) if m < 0.55 else r.loguniform(1e-3, 1e3)))
     mono = r.chance(0.4)
+    extreme = r.chance(0.22)
+    if extreme:
+        # sensitivity/epsilon in [1e-12, 1e-6] (the "is this zero sensitivity / infinite epsilon?" region): either a tiny
+        # sensitivity with an ordinary epsilon (the laws stay non-degenerate: exponents are eps * (u - max)/sens/2), or a
+        # huge finite epsilon; utilities are multiples of the sensitivity so that neighbours' arg-max can differ
+        ratio = r.loguniform(1e-12, 1e-6)
+        if r.chance(0.65):
+            eps = r.choice([1.0, 0.5, 2.0, r.loguniform(0.01, 10.0)])
+        else:
+            eps = r.loguniform(1e3, 1e9)
+        sens = ratio * eps
+        n = max(n, 2)
     u, up = gen_utils(r, n, sens, mono)
+    if extreme:
+        # make the two best candidates close (within the sensitivity) so that the arg-max can move
+        i, j = r.sample(list(range(n)), 2)
+        top = max(u)
+        u[i] = top + sens * r.uniform(0.1, 1.0)
+        u[j] = u[i] - sens * r.uniform(0.1, 0.9)
+        if mono:
+            up[i], up[j] = u[i], u[j] + sens * r.uniform(0.5, 1.0)
+        else:
+            up[i], up[j] = u[i] - sens * r.uniform(0.3, 0.9), u[j] + sens * r.uniform(0.3, 0.9)
+        up = [b if within([a], [b], sens, mono) else a for a, b in zip(u, up)]
     if paf and sens > 0:
         # keep the coins' exponents moderate so that the decision tree stays small
         sc = eps / sens / (1 if mono else 2)
@@ -1144,7 +1171,7 @@ def gen_cat_case(r):
     mode = r.choice(["random", "random", "int", "equal", "circulant", "near", "near", "near-equal"])
     U = [[0.0] * n for _ in range(n)]
     if n >= 2:
-        scale = r.choice([1.0, 1.0, 3.0, r.loguniform(1e-2, 1e2)])
+        scale = r.choice([1.0, 1.0, 3.0, r.loguniform(1e-2, 1e2), r.loguniform(1e-12, 1e-6), r.loguniform(1e6, 1e12)])
         if mode in ("circulant", "near"):
             row = [0.0] + [scale * r.choice([1.0, 2.0, r.uniform(0.2, 3.0)]) for _ in range(n - 1)]
             for k in range(1, n):
